@@ -250,6 +250,13 @@ func (c *channel) sender() {
 		if err != nil {
 			// return the error
 			c.routeResponse(req.msg.Metadata.MessageID, response{nid: c.node.ID(), err: err})
+			if c.streamBroken.get() {
+				// The stream failed; messages sent on it earlier will not be answered.
+				// The receiver only notices (and fails the pending messages) if it is
+				// waiting on this stream; it may instead find the stream already
+				// replaced by our next reconnect. Thus, fail the pending messages here.
+				c.cancelPendingMsgs()
+			}
 		}
 	}
 }
